@@ -510,6 +510,9 @@ func Coordinate(self string, ck *Check, tier string, seed int64, verifDir string
 	// Confirm and report unknown violations (smallest first, at most 10 replay files).
 	reported := 0
 	replayDir := filepath.Join(verifDir, "replays", ck.ID)
+	if d := os.Getenv("VERIF_REPLAY_DIR"); d != "" {
+		replayDir = filepath.Join(d, ck.ID)
+	}
 	for _, v := range unknown {
 		if reported >= 10 {
 			break
@@ -603,6 +606,9 @@ func Coordinate(self string, ck *Check, tier string, seed int64, verifDir string
 		"violations":  len(unknown),
 	}
 	evDir := filepath.Join(verifDir, "evidence")
+	if d := os.Getenv("VERIF_EVIDENCE_DIR"); d != "" {
+		evDir = d // used when a seeded change in a scratch tree is checked; never for /repo
+	}
 	os.MkdirAll(evDir, 0755)
 	b, _ := json.MarshalIndent(ev, "", " ")
 	os.WriteFile(filepath.Join(evDir, ck.ID+".json"), append(b, '\n'), 0644)
